@@ -4,6 +4,7 @@ import (
 	"encoding/json"
 	"fmt"
 	"runtime"
+	"sort"
 	"sync"
 
 	"github.com/ethereum/go-ethereum/core/types/goattypes"
@@ -30,17 +31,25 @@ type c20Detail struct {
 	Reqs []c20Req `json:"requests"`
 	To   pState   `json:"to"`
 	Dep  int64    `json:"deposit_value,omitempty"`
+	Net  string   `json:"bitcoin_network,omitempty"`
 }
 
 var c20V = []uint64{0, 1, 999, 1000, 1001, 9999, 10000, 10001, 1 << 32, 1<<63 - 1, 1 << 63, 1<<64 - 1}
 
 const dustLimit = 1000 // the protocol's dust limit, fixed here on purpose
 
-func c20Apply(w *depWorld, s pState, reqs []c20Req) (pState, error) {
+func c20Apply(w *depWorld, s pState, reqs []c20Req) (pState, error) { return c20ApplyNet(w, s, reqs, "") }
+
+// c20ApplyNet applies the requests on a chain configured for the given bitcoin network
+// ("" = the default of the test genesis).
+func c20ApplyNet(w *depWorld, s pState, reqs []c20Req, network string) (pState, error) {
 	ctx, _ := w.root.CacheContext()
 	k := w.n.App.BitcoinKeeper
 	p, err := k.Params.Get(ctx)
 	must(err)
+	if network != "" {
+		p.NetworkName = network
+	}
 	p.DepositTaxRate, p.MaxDepositTax, p.ConfirmationNumber, p.MinDepositAmount = s.Rate, s.Max, s.Conf, s.Min
 	must(k.Params.Set(ctx, p))
 	var br goattypes.BridgeRequests
@@ -103,7 +112,7 @@ func safe(s pState) string {
 }
 
 func runC20(r *mc.Run) {
-	r.Rule = "BFS to fixpoint over bridge parameter states (rate, cap, confirmations, minimum) from three safe genesis corners under DepositTax/Confirmation/MinDeposit requests over a 12-value 64-bit alphabet (single requests, every pair of values of two different kinds in one request list, and further multi-request lists), each applied by the real ProcessBridgeRequest; in every reachable state deposits of 8 values go through the real MsgNewDeposits handler; oracle = bounds invariant, targeted parameter unchanged by out-of-range requests, 0 <= tax < value, amount > 0, value >= minimum > dust"
+	r.Rule = "BFS to fixpoint over bridge parameter states (rate, cap, confirmations, minimum) from three safe genesis corners under DepositTax/Confirmation/MinDeposit requests over a 12-value 64-bit alphabet (single requests, every pair of values of two different kinds in one request list, and further multi-request lists), each applied by the real ProcessBridgeRequest; the whole menu again from the three corners on every configurable bitcoin network; in every reachable state deposits of 8 values go through the real MsgNewDeposits handler; oracle = bounds invariant, targeted parameter unchanged by out-of-range requests, 0 <= tax < value, amount > 0, value >= minimum > dust"
 	r.Assumptions = []string{"parameter states are materialised by writing Params on a branch (the handler reads nothing else)", "dust limit fixed at 1000 satoshi in the oracle"}
 	vals := c20V
 	if r.Thorough() {
@@ -211,6 +220,43 @@ func runC20(r *mc.Run) {
 			break
 		}
 	}
+	// the same bounds on every bitcoin network the chain can be configured for: from the three
+	// corners, every request list of the menu
+	var nets []string
+	for name := range bitcointypes.BitcoinNetworks {
+		nets = append(nets, name)
+	}
+	sort.Strings(nets)
+	r.Bounds["bitcoin_networks"] = nets
+	type nj struct {
+		net  string
+		from pState
+	}
+	var njobs []nj
+	for _, n := range nets {
+		for _, c := range corners {
+			njobs = append(njobs, nj{n, c})
+		}
+	}
+	mc.Parallel(len(njobs), runtime.NumCPU(), func(i int) {
+		j := njobs[i]
+		w := get()
+		defer put(w)
+		for _, reqs := range menu {
+			ns, err := c20ApplyNet(w, j.from, reqs, j.net)
+			r.Transitions.Add(1)
+			r.Validated.Add(1)
+			d := c20Detail{From: j.from, Reqs: reqs, To: ns, Net: j.net}
+			if err != nil {
+				r.Violate(mc.Violation{Class: "parameter-request-fails", Msg: fmt.Sprintf("%+v from %+v on %s: %v", reqs, j.from, j.net, err), Detail: d}, nil)
+				continue
+			}
+			if why := safe(ns); why != "" {
+				r.Violate(mc.Violation{Class: "unsafe-parameters:" + why[:8], Msg: fmt.Sprintf("on %s: %+v --%+v--> %+v: %s", j.net, j.from, reqs, ns, why), Detail: d}, nil)
+			}
+		}
+		r.Outcome("network-corner-swept")
+	})
 	r.Bounds["bfs_levels_to_fixpoint"] = level
 	r.Bounds["reachable_parameter_states"] = len(seen)
 	r.Sample(c20Detail{From: corners[1], Reqs: menu[17], To: corners[1]})
@@ -236,7 +282,7 @@ func replayC20(detail json.RawMessage) (bool, string) {
 		bad := msg != "" || (acc && (uint64(d.Dep) <= dustLimit || uint64(d.Dep) < d.From.Min))
 		return bad, fmt.Sprintf("accepted=%v %s", acc, msg)
 	}
-	ns, err := c20Apply(w, d.From, d.Reqs)
+	ns, err := c20ApplyNet(w, d.From, d.Reqs, d.Net)
 	if err != nil {
 		return true, err.Error()
 	}
